@@ -87,6 +87,8 @@ def sym_keycalc(vc):
             KC = real_function(it, 'dataflows.processors.sort_rows', 'KeyCalc')
             from pyvc.api import PyList
             kc = it.call(KC, [PyList(['k']) if spec_kind == 'list' else '{k}'])
+            from pyvc.api import interference
+            interference(it)     # other key calculators may be built (and used) before this one is used
             x, y = z3.FP('x', D), z3.FP('y', D)
             it.assume(z3.And(z3.Not(z3.fpIsNaN(x)), z3.Not(z3.fpIsNaN(y))))
             encs = []
@@ -117,6 +119,8 @@ def sym_keycalc(vc):
         KC = real_function(it, 'dataflows.processors.sort_rows', 'KeyCalc')
         from pyvc.api import PyList, sym_str
         kc = it.call(KC, [PyList(['a', 'b'])])
+        from pyvc.api import interference
+        interference(it)     # other key calculators may be built (and used) before this one is used
         a, b = sym_str(it, 'a'), sym_str(it, 'b')
         key = it.call(kc, [PyDict({'a': a, 'b': b})])
         T = z3.StringVal('\x00')
@@ -130,6 +134,8 @@ def sym_keycalc(vc):
         from pyvc.api import ufunc
         f = ufunc('user_key')
         kc = it.call(KC, [f])
+        from pyvc.api import interference
+        interference(it)     # other key calculators may be built (and used) before this one is used
         check(it, 'callable-key-used-as-is', it.lib.getattr_(it, kc, 'calculator') is f)
     vc.explore(fk, thunk3)
     vc.cur_fn = fk
